@@ -14,10 +14,17 @@ import (
 type Cfg struct {
 	Members []uint64 `json:"members"`
 	Policy  string   `json:"policy"` // informational
+	// Cold: the group was the first thing its process did and the hands ran
+	// concurrently BEFORE they ran alone, so that whatever the code under
+	// test initialises lazily per process is initialised while several
+	// hands are in flight. (A replay file is always executed first thing in
+	// a fresh process.)
+	Cold bool `json:"cold,omitempty"`
 }
 
-// World implements sim.World for world Y.
-type World struct{}
+// World implements sim.World for world Y. Cold selects the cold-start groups
+// (one group per process, see Cfg.Cold).
+type World struct{ Cold bool }
 
 func (World) Name() string { return "Y" }
 
@@ -76,28 +83,46 @@ func (w World) exec(cfg *Cfg, rng *sim.RNG, script []Switch, o sim.Options) *sim
 	mo := o
 	mo.KeepLog = true
 	k := len(cfg.Members)
-	// 1. every hand alone (also: which functions run, how many scheduling points)
+	// 1. every hand alone (also: which functions run, how many scheduling
+	// points). Cold groups do this after the concurrent execution.
 	seen := map[int]int64{}
 	var points int64
-	install(func(fid int) { seen[fid]++; points++ }, nil)
 	solo := make([]*sim.Result, k)
-	for i, ss := range cfg.Members {
-		solo[i] = member().Generate(ss, mo)
-		if solo[i].Fault != "" {
-			install(nil, nil)
-			res.Fault = "member hand alone: " + solo[i].Fault
+	runSolo := func() string {
+		install(func(fid int) { seen[fid]++; points++ }, nil)
+		defer install(nil, nil)
+		for i, ss := range cfg.Members {
+			solo[i] = member().Generate(ss, mo)
+			if solo[i].Fault != "" {
+				return "member hand alone: " + solo[i].Fault
+			}
+		}
+		return ""
+	}
+	if !cfg.Cold {
+		if f := runSolo(); f != "" {
+			res.Fault = f
 			return res
 		}
 	}
-	install(nil, nil)
 	// 2. the same hands concurrently
 	s := &sched{}
 	if script != nil {
 		s.loadScript(script)
 	} else {
 		s.rng = rng
-		s.pol = drawPolicy(rng, seen, points)
-		cfg.Policy = fmt.Sprintf("quantum=%d focus=%s p=%.3f cap=%d", s.pol.quantum, funcName(s.pol.focus), s.pol.focusP, s.pol.maxSw)
+		if cfg.Cold {
+			// nothing is known about the hands yet: dense switching from
+			// the first statement on
+			if rng.Chance(0.6) {
+				s.pol = policy{focus: -1, maxSw: 4000, first: []int{10, 40, 150}[rng.Intn(3)]}
+			} else {
+				s.pol = policy{focus: -1, maxSw: 2000, quantum: []int64{5, 20, 80, 300, 1000, 5000}[rng.Intn(6)]}
+			}
+		} else {
+			s.pol = drawPolicy(rng, seen, points)
+		}
+		cfg.Policy = fmt.Sprintf("quantum=%d focus=%s p=%.3f first-touch=%d cap=%d", s.pol.quantum, funcName(s.pol.focus), s.pol.focusP, s.pol.first, s.pol.maxSw)
 	}
 	conc := make([]*sim.Result, k)
 	panics := make([]string, k)
@@ -117,6 +142,13 @@ func (w World) exec(cfg *Cfg, rng *sim.RNG, script []Switch, o sim.Options) *sim
 	install(s.hook, s.blocked)
 	s.run(fns)
 	install(nil, nil)
+	if cfg.Cold && !s.deadlock && s.fault == "" {
+		res.Count("probe.conc.cold-start-groups", 1)
+		if f := runSolo(); f != "" {
+			res.Fault = f
+			return res
+		}
+	}
 	res.Count("probe.conc.groups", 1)
 	res.Count("probe.conc.hands", int64(k))
 	res.Count("fault.goroutine-switch-inside-engine-call", int64(s.vol))
@@ -232,7 +264,7 @@ func (w World) Generate(subseed uint64, o sim.Options) *sim.Result {
 	if rng.Chance(0.3) {
 		k = 3
 	}
-	cfg := &Cfg{}
+	cfg := &Cfg{Cold: w.Cold}
 	for i := 0; i < k; i++ {
 		cfg.Members = append(cfg.Members, rng.Uint64())
 	}
@@ -276,7 +308,7 @@ func (w World) Simplify(c *sim.Case) []*sim.Case {
 	}
 	var out []*sim.Case
 	for d := range cfg.Members {
-		n := Cfg{Policy: cfg.Policy}
+		n := Cfg{Policy: cfg.Policy, Cold: cfg.Cold}
 		remap := map[int]int{}
 		for i, m := range cfg.Members {
 			if i != d {
